@@ -26,7 +26,7 @@ CHECK = {
                      "ClusterVerif/Model/C08Prod.lean", "ClusterVerif/Lemmas/C08Prod.lean", "ClusterVerif/Gen/C08Pb.lean",
                      "ClusterVerif/Gen/C08Prod.lean", "ClusterVerif/Model/C08Add.lean", "ClusterVerif/Lemmas/C08Add.lean",
                      "ClusterVerif/Gen/C08Add.lean", "ClusterVerif/Lemmas/C08AddDec.lean", "ClusterVerif/Model/C08Util.lean",
-                     "ClusterVerif/Lemmas/C08Util.lean"],
+                     "ClusterVerif/Lemmas/C08Util.lean", "ClusterVerif/Model/C08Mp.lean", "ClusterVerif/Lemmas/C08Mp.lean"],
     "rule": "roundtrip: 1/16 q cases (PinOptions.FromQuery on typed parameter sets), 1/8 aq cases (the real AddParamsFromQuery on typed parameter sets: pin-option parameters as in q, made acceptable in 3 of 4 cases; "
             "each of the 14 add parameters absent 40% / a value ToQueryString writes / another accepted spelling (all twelve ParseBool spellings, +1, -0, 01, int64 boundaries, empty value, upper-case hash names) / "
             "in a third of the cases an unacceptable one (tRUE, yes, 1_0, 0x1, overflow, unknown layout/format); keys shuffled, a repeated key in 1/6, an unknown key in 1/10; an accepted set is re-encoded and decoded again), else a record type (Pin 40%, PinOptions 10%, AddParams in its query form 10%, state dump 4%, the other 20 records uniformly) x one of the formats the system "
@@ -34,7 +34,9 @@ CHECK = {
             "0-4 allocations (elements may be the empty peer ID), references nil / defined / pointing to cid.Undef, cid.Undef in every CID field,  0-3 origins with and without /p2p/, metadata incl. empty key/value, reference/update CIDs of both CID versions, "
             "expiry zero/unix-zero/first-second/past/future/pre-epoch with and without nanoseconds and in three time zones, names needing "
             "escaping, int32/int64/uint64 boundaries, the sharding adder's mode/depth shapes); equals: a pin, a variant (0-3 of 22 edits) and a "
-            "variant of the variant; wire: pbenc 25% (generated pins incl. invalid UTF-8 in name/metadata and nil origins -> real ProtoMarshal bytes vs the byte-level model, exact), "
+            "variant of the variant; wire: 20% msgpack envelope of dsstate (1/3 mpenc: 0-5 raw key/values - keys of 1-8/31/32/59/300 characters, values nil / empty / 31 / 32 / 255-257 / 65535-65537 bytes - put under the state's namespace, real State.Marshal bytes vs the byte-level model, exact; "
+            "2/3 mpdec: real State.Unmarshal over a store that already holds 0-2 entries, on the real stream or on the same entries written by the harness's own msgpack writer in other forms: map16/map32 heads, str8/str16/str32/bin8/bin16/bin32 heads for names and values, v before k, "
+            "unknown fields with nested junk values of every msgpack type, repeated / missing / nil fields, keys of another type, nil entries; a quarter cut at a random byte; status and the store afterwards compared with the model), of the rest: pbenc 25% (generated pins incl. invalid UTF-8 in name/metadata and nil origins -> real ProtoMarshal bytes vs the byte-level model, exact), "
             "pbdec 50% (real bytes with fields shuffled, duplicated, renumbered, retyped, unknown fields of all six wire types incl. nested groups, nested Options/map entries edited, "
             "and damaged: truncation, lengths past the end, huge lengths, overlong varints, stray groups, reserved wire types, number 0 / >2^29, invalid UTF-8; random bytes -> real "
             "proto.Unmarshal + ProtoUnmarshal vs the model decoder), qesc 15%, qparse 10%; strings: named statuses, filters, a sweep of 0..8300, modes, types, parser words, 3/23 peer-ID lists through api.PeersToStrings/StringsToPeers (empty IDs, base58 and CID text forms, junk); decoders: byte/structure "
@@ -81,14 +83,16 @@ META = {
             "no unrecognised statement; rule order) and equality of that table with the one the model transcribes. Round 8b: the DECODER AddParamsFromQuery on ARBITRARY parameter sets - it depends on Values.Get of its fourteen keys only "
             "(order, unknown keys, later values of a repeated key irrelevant), all absent or empty gives the defaults, ParseBool accepts exactly twelve spellings, Atoi refuses any underscore and only yields 64-bit values, everything accepted is well-formed and is a fixed point of "
             "ToQueryString -> AddParamsFromQuery (decoded_reencodes for the model, all inputs); tied to the real function by typed `aq` cases (accepted sets are re-encoded and decoded again by the real code). api/util.go PeersToStrings/StringsToPeers: round trip = the list without empty IDs "
-            "(identity on defined IDs, full statement refuted), re-encoding of any decoded list is stable; tied by `str p2s/s2p` cases. (L3) every run drives the real "
+            "(identity on defined IDs, full statement refuted), re-encoding of any decoded list is stable; tied by `str p2s/s2p` cases. Round 8c: the msgpack envelope of the state dump (dsstate serialEntry stream, ugorji legacy-raw forms) at the byte level - a token reader for every msgpack head byte, the entry decoder (k/v by name, later wins, unknown fields skipped with nested values, nil entry) and State.Unmarshal over a store "
+            "(first entry decoded before the store is touched: a key-less first entry keeps the store, proved for all stores and streams; an empty stream empties it; a stream that ends inside its first entry empties it WITHOUT error and one cut later restores a prefix without error - the wanted statement 'a cut stream is refused' is refuted with a witness); "
+            "fixraw and length-byte round trips for all values; the whole-snapshot round trip is a named unproved Prop, evaluated on every mpenc case; tied byte for byte to the real Marshal and, on structure-aware variants and cuts, to the real Unmarshal (`mpenc`/`mpdec`). (L3) every run drives the real "
             "encoders and decoders on all 23 record types x formats and compares, field by field with the harness's own dumper, against the model's "
             "prediction and against the property's comparison.",
     "note": "Decoder robustness of the library decoders is search only (mutated encodings + random bytes under recover; per-type distribution in the arm histogram); "
-            "real ProtoMarshal bytes equal the model's bytes exactly and the real protobuf decoder equals the model decoder on structure-aware mutations (suite wire). Known findings on the unchanged tree: K01 origins not "
+            "real ProtoMarshal bytes equal the model's bytes exactly and the real protobuf decoder equals the model decoder on structure-aware mutations (suite wire); the same for the msgpack envelope of dsstate (real Marshal bytes = model bytes; real Unmarshal = model on variant and cut streams; observation: a cut dump is accepted without error). Known findings on the unchanged tree: K01 origins not "
             "decodable (msgpack, JSON), K13 stored form loses Mode when it disagrees with MaxDepth, "
             "K37/K38 a Reference pointing to cid.Undef is rejected by msgpack and read back as nil by JSON/protobuf, K39 zero-valued records with a required CID cannot be decoded from msgpack, K40 the empty peer ID is written and then rejected in every format, "
             "K16 msgpack nil in an address list decodes to a value that cannot be re-encoded (an error since f2e567e, no panic). "
             "K15 (JSON decoding of an invalid multiaddress panicked) is fixed by f2e567e, K14 (status filters widened by their string form) by d6bd794.",
-    "technique": "Lean 4 decide-theorems over reflection/ast-generated tables (schema, protobuf field numbers, producer sites, add-parameter steps) + theorems over hand models of the converters and a byte-level model of the protobuf and query-string wire forms + differential correspondence (byte-exact) + mutation-based decoder search",
+    "technique": "Lean 4 decide-theorems over reflection/ast-generated tables (schema, protobuf field numbers, producer sites, add-parameter steps) + theorems over hand models of the converters and byte-level models of the protobuf, query-string and dsstate msgpack-envelope wire forms + differential correspondence (byte-exact) + mutation-based decoder search",
 }
